@@ -36,12 +36,12 @@ func getChainRoles(p *ir.Prog) *chainRoles {
 	r.validateOrphan = p.FuncObj("consensus", "ValidateOrphan")
 	r.applyBlockFn = p.FuncObj("consensus", "ApplyBlock")
 	r.revertBlockFn = p.FuncObj("consensus", "RevertBlock")
-	r.tipState = p.Field("chain", "Manager", "tipState")
-	r.store = p.Field("chain", "Manager", "store")
-	r.txpool = p.Field("chain", "Manager", "txpool")
-	r.onReorg = p.Field("chain", "Manager", "onReorg")
-	r.onPool = p.Field("chain", "Manager", "onPool")
-	r.mu = p.Field("chain", "Manager", "mu")
+	r.tipState = p.FieldOr("chain", "Manager", "tipState", isNamedT("consensus", "State"))
+	r.store = p.FieldOr("chain", "Manager", "store", isNamedT("chain", "Store"))
+	r.txpool = p.FieldOr("chain", "Manager", "txpool", func(t types.Type) bool { _, ok := t.(*types.Struct); return ok })
+	r.onReorg = p.FieldOr("chain", "Manager", "onReorg", mapOfFunc(1))
+	r.onPool = p.FieldOr("chain", "Manager", "onPool", mapOfFunc(0))
+	r.mu = p.FieldOr("chain", "Manager", "mu", func(t types.Type) bool { return ir.IsNamed(t, "sync", "Mutex") })
 	r.methods = p.MethodsOf("chain", "Manager")
 	for _, f := range r.methods {
 		if len(f.CallsTo(false, r.storeApply)) > 0 {
